@@ -711,6 +711,82 @@ def manifold_histories(chk, max_len):
     return nhist
 
 
+def manifold_request_parameters(chk):
+    """Two consecutive compute_manifold requests on one real _ManifoldDynamicsService that differ in exactly ONE request parameter
+    (read off the real signature) never share a cache entry: the second call returns what the manifold computation gives for the
+    second request.  Numeric parameters are two symbolic values (the solver explores equal / different)."""
+    import inspect
+    from hiten.algorithms.types.services import manifold as sm
+    cls = sm._ManifoldDynamicsService
+    params = [n for n in inspect.signature(cls.compute_manifold).parameters if n not in ('self', 'show_progress')]
+
+    def run_compute(self, **k):
+        return ('MANIFOLD', self.stable, self.direction, tuple(sorted((n, v) for n, v in k.items() if n != 'show_progress')))
+    Svc = type('Man', (cls,), {'_run_compute': run_compute})
+
+    class Obj(Stub):
+        def __hash__(self):
+            return 7
+
+        def __eq__(self, o):
+            return self is o
+    concrete = {'method': ('adaptive', 'fixed'), 'order': (8, 4), 'NN': (1, 2)}
+    base = {'step': 0.25, 'integration_fraction': 1, 'NN': 1, 'displacement': 1, 'method': 'adaptive', 'order': 8, 'dt': 1, 'energy_tol': 1, 'safe_distance': 1}
+    for name in params:
+        ex = Explorer(max_paths=50)
+        ex.congruence = True
+        a, b = concrete.get(name, (hvar('mreq_a'), hvar('mreq_b')))
+
+        def go():
+            orbit = Obj(initial_state=np.array([0.8, 0.0, 0.1, 0.0, 0.2, 0.0]), period=3.0, libration_point=Stub(system=Stub(mu=0.01, dynsys='DYN', var_dynsys='VAR', jacobian_dynsys='JAC')), __verif_id__=4000)
+            dom = Obj(_stable=True, _direction='positive', _generating_orbit=orbit, __verif_id__=4001)
+            svc = Svc(dom)
+            dom.dynamics = svc
+            k1 = dict({n: base.get(n, 1) for n in params}, **{name: a})
+            k2 = dict({n: base.get(n, 1) for n in params}, **{name: b})
+            svc.compute_manifold(show_progress=False, **k1)
+            got = svc.compute_manifold(show_progress=False, **k2)
+            want = run_compute(svc, **k2)
+            return eqv(got, want) and eqv(svc.manifold_result, want)
+        paths = ex.run(go)
+        chk.absorb(ex)
+        oid = 'C20/(d)manifold-request-parameter/%s' % name
+        bad = [p for p in paths if p.exc is not None or not p.value]
+        if ex.capped or ex.unknown or ex.nondeterministic:
+            chk.unknown(oid, 'exploration incomplete')
+        elif bad:
+            exc = [p.exc for p in bad if p.exc is not None]
+            chk.fail(oid, ('raised %r' % (exc[0],)) if exc else 'a second compute_manifold request differing only in %r is answered with the result of the first request' % name, _replay_manifold_param(name))
+        else:
+            chk.ok(oid, 'requests differing only in %r do not share a cache entry (%d paths)' % (name, len(paths)))
+
+
+def _replay_manifold_param(name):
+    return '''
+import warnings; warnings.filterwarnings("ignore")
+from hiten.system import System
+NAME = %r
+PAIRS = {"step": (0.25, 0.5), "integration_fraction": (0.2, 0.3), "NN": (1, 2), "displacement": (1e-6, 1e-4), "method": ("adaptive", "fixed"), "order": (8, 4),
+         "dt": (1e-3, 1e-2), "energy_tol": (1.0, 1e-18), "safe_distance": (2.0, 1e9)}
+base = dict(step=0.25, integration_fraction=0.2, NN=1, displacement=1e-6, method="adaptive", order=8, dt=1e-3, energy_tol=1e-6, safe_distance=2.0, show_progress=False)
+if NAME == "dt": base.update(method="fixed", order=4)
+if NAME == "order": base.update(method="fixed", dt=1e-2)
+l1 = System.from_bodies("earth", "moon").get_libration_point(1)
+o = l1.create_orbit("halo", amplitude_z=0.02, zenith="southern"); o.correct()
+def summary(r):
+    return (len(r[2]), int(r[4]), int(r[5]), [np.asarray(x) for x in r[2][:2]])
+def same(a, b):
+    return a[:3] == b[:3] and all(x.shape == y.shape and np.allclose(x, y, rtol=1e-8, atol=1e-10) for x, y in zip(a[3], b[3]))
+a, b = PAIRS.get(NAME, (1, 2))
+m = o.manifold(stable=False, direction="positive")
+m.dynamics.compute_manifold(**dict(base, **{NAME: a}))
+got = summary(m.dynamics.compute_manifold(**dict(base, **{NAME: b})))
+o2 = type(o)(l1, initial_state=o.initial_state.copy()); o2.period = o.period
+want = summary(o2.manifold(stable=False, direction="positive").dynamics.compute_manifold(**dict(base, **{NAME: b})))
+_verdict(not same(got, want), parameter=NAME, got=list(got[:3]), fresh=list(want[:3]))
+''' % (name,)
+
+
 def _replay_manifold(hist):
     return '''
 import warnings; warnings.filterwarnings("ignore")
@@ -950,11 +1026,13 @@ def main():
         orbit_histories(chk, 4, ['P0', 'P1', 'R5', 'R9', 'M', 'S', 'E', 'T', 'C0', 'C1', 'K', 'G0'], 'all')
         cm_histories(chk, 4)
         manifold_histories(chk, 4)
+        manifold_request_parameters(chk)
         libration_histories(chk, 4)
     else:
         orbit_histories(chk, 3, ['P0', 'P1', 'R5', 'R9', 'M', 'S', 'E', 'T', 'C0', 'C1', 'K', 'G0'], 'all')
         cm_histories(chk, 3)
         manifold_histories(chk, 3)
+        manifold_request_parameters(chk)
         libration_histories(chk, 3)
     return chk.finish()
 
